@@ -8,6 +8,8 @@
 (*   Inv_L1        the comparison as coded (type-gated PartialEq, the      *)
 (*                 internal total order, the number gate of `compare`,     *)
 (*                 Interp!CompareL1 under DEVS) equals Level 0             *)
+(* Negative control NC_FLOAT_EQ_SUM_OVERFLOWS (MC_Cmp_near_neg_overflow):  *)
+(* float_eq as it stood before the repair of finding F18.                  *)
 (* Negative control NC_ORD_LEAK: `==` answered by the internal total order *)
 (* in which values of different types compare Equal.                       *)
 (***************************************************************************)
@@ -15,10 +17,10 @@ EXTENDS Interp, TLC
 CONSTANTS DEVS, NEAR
 VARIABLES l, r, swapped
 
-(* NEAR = TRUE: the universe of MC_Cmp_near -- neighbouring doubles (1, 1+1ulp, 1+2ulp, 1-1ulp, 3/10+1ulp), an inexact number and two
-   large magnitudes among the atoms *)
+(* NEAR = TRUE: the universe of MC_Cmp_near -- neighbouring doubles (1, 1+1ulp, 1+2ulp, 1-1ulp, 3/10+1ulp), an inexact number and
+   large magnitudes (10^19 and three next to f64::MAX, where the sum of two magnitudes leaves the doubles) among the atoms *)
 NearAtoms == {JNull, JTrue, JInt(0), JInt(1), JNear(1, 1, 1), JNear(1, 1, 2), JNear(1, 1, -1), JNum(3, 10), JNear(3, 10, 1), JNear(-1, 1, 1),
-              WithU(JInt(1), INEXACT), JBig(1, 19), JBig(11, 18), JBig(-1, 19), JStr(<<97>>)}
+              WithU(JInt(1), INEXACT), JBig(1, 19), JBig(11, 18), JBig(-1, 19), JBig(1, 308), JBig(17, 307), JBig(9, 307), JStr(<<97>>)}
 MoreAtoms == IF NEAR THEN NearAtoms ELSE Atoms \cup {JNum(1, 2), JStr(<<98>>)}
 U == Univ(MoreAtoms, 1, IF NEAR THEN 1 ELSE 2)
 Init == l \in U /\ r \in U /\ swapped = FALSE
@@ -27,7 +29,7 @@ Spec == Init /\ [][Next]_<<l, r, swapped>>
 
 OpsAll == {"eq", "ne", "lt", "le", "gt", "ge"}
 C(op, a, b) == Cmp(op, a, b)
-L1(op, a, b) == IF "NC_ORD_LEAK" \in DEVS /\ op = "eq" THEN JBool(a.t # b.t \/ a = b) ELSE CompareL1(op, a, b)
+L1(op, a, b) == IF "NC_ORD_LEAK" \in DEVS /\ op = "eq" THEN JBool(a.t # b.t \/ a = b) ELSE CompareL1(op, a, b, DEVS)
 
 Inv_Contract ==
   LET bothNum == l.t = "num" /\ r.t = "num" IN
